@@ -63,9 +63,40 @@ func Extra() []bgp.PathAttributeInterface {
 	if fs, err := bgp.NewFlowSpecUnicast(bgp.RF_FS_IPv4_UC, []bgp.FlowSpecComponentInterface{bgp.NewFlowSpecDestinationPrefix(d4), bgp.NewFlowSpecComponent(bgp.FLOW_SPEC_TYPE_DST_PORT, many)}); err == nil {
 		mp(bgp.RF_FS_IPv4_UC, "", fs)
 	}
+	// FlowSpec NLRI whose component octets number 237..242: around the switch from the one-octet to the two-octet length
+	for target := 237; target <= 242; target++ {
+		for b := 0; b < 5; b++ {
+			if rest := target - 6 - 2*b; rest >= 0 && rest%5 == 0 {
+				var items []*bgp.FlowSpecComponentItem
+				for i := 0; i < rest/5; i++ {
+					items = append(items, bgp.NewFlowSpecComponentItem(bgp.DEC_NUM_OP_EQ, uint64(70000+i)))
+				}
+				for i := 0; i < b; i++ {
+					items = append(items, bgp.NewFlowSpecComponentItem(bgp.DEC_NUM_OP_EQ, uint64(10+i)))
+				}
+				if fs, err := bgp.NewFlowSpecUnicast(bgp.RF_FS_IPv4_UC, []bgp.FlowSpecComponentInterface{bgp.NewFlowSpecDestinationPrefix(d4), bgp.NewFlowSpecComponent(bgp.FLOW_SPEC_TYPE_DST_PORT, items)}); err == nil {
+					mp(bgp.RF_FS_IPv4_UC, "", fs)
+				}
+				break
+			}
+		}
+	}
 	mp(bgp.RF_EVPN, "10.0.0.1", bgp.NewEVPNIPMSIRoute(rd, 5, rt))
 	mp(bgp.RF_MUP_IPv4, "10.0.0.1", bgp.NewMUPInterworkSegmentDiscoveryRoute(rd, netip.MustParsePrefix("10.5.0.0/16")),
 		bgp.NewMUPDirectSegmentDiscoveryRoute(rd, netip.MustParseAddr("10.5.5.5")))
+	// the two session-transformed MUP route types, IPv4 and IPv6, with and without the optional parts
+	sa4 := netip.MustParseAddr("10.6.6.6")
+	mp(bgp.RF_MUP_IPv4, "10.0.0.1",
+		bgp.NewMUPType1SessionTransformedRoute(rd, netip.MustParsePrefix("10.7.0.1/32"), netip.MustParseAddr("0.0.48.57"), 9, netip.MustParseAddr("10.7.7.7"), &sa4),
+		bgp.NewMUPType1SessionTransformedRoute(rd, netip.MustParsePrefix("10.7.0.0/24"), netip.MustParseAddr("0.0.48.57"), 9, netip.MustParseAddr("10.7.7.7"), nil),
+		bgp.NewMUPType2SessionTransformedRoute(rd, 64, netip.MustParseAddr("10.7.7.8"), netip.MustParseAddr("0.0.48.58")),
+		bgp.NewMUPType2SessionTransformedRoute(rd, 48, netip.MustParseAddr("10.7.7.8"), netip.MustParseAddr("0.0.48.0")))
+	sa6 := netip.MustParseAddr("2001:db8::66")
+	mp(bgp.RF_MUP_IPv6, "2001:db8::1",
+		bgp.NewMUPInterworkSegmentDiscoveryRoute(rd, netip.MustParsePrefix("2001:db8:5::/48")),
+		bgp.NewMUPDirectSegmentDiscoveryRoute(rd, netip.MustParseAddr("2001:db8::55")),
+		bgp.NewMUPType1SessionTransformedRoute(rd, netip.MustParsePrefix("2001:db8:7::1/128"), netip.MustParseAddr("0.0.48.57"), 9, netip.MustParseAddr("2001:db8::77"), &sa6),
+		bgp.NewMUPType2SessionTransformedRoute(rd, 160, netip.MustParseAddr("2001:db8::78"), netip.MustParseAddr("0.0.48.58")))
 	if sr, err := bgp.NewSRPolicy(bgp.RF_SR_POLICY_IPv4, 96, 1, 100, []byte{10, 0, 0, 9}); err == nil {
 		mp(bgp.RF_SR_POLICY_IPv4, "10.0.0.1", sr)
 	}
